@@ -1960,7 +1960,9 @@ def tag_fn(ctx: "Wtp", token: str) -> None:
     if m is not None:
         # This is a start tag
         name = m.group(1).lower()
-        attrs = m.group(2)
+        # A template call or link inside an attribute value is still an
+        # internal placeholder here; attributes are kept as text
+        attrs = ctx._finalize_expand(m.group(2))
         also_end = m.group(0).endswith("/>")
 
         # Some templates have markers like <1> in their arguments.  Only parse
